@@ -33,8 +33,8 @@ DESIGN = {
                  ("RestartBoundary_refine.cfg", False), ("RestartBoundary_live.cfg", False)],
 }
 # named sub-actions of RNext that must have been taken (vacuity guard)
-REQUIRED_ACTIONS = ["REnsureWith", "FinishRequesting", "FinishQuiet", "HRestartRequesting", "HRestartQuiet",
-                    "RebootResolving", "RebootKeeping", "BootStart"]   # BootStart = SnapdRestart (same boot id)
+REQUIRED_ACTIONS = ["NEnsure", "FinishRequesting", "FinishQuiet", "HRestartRequesting", "HRestartQuiet",
+                    "RebootResolving", "RebootKeeping", "SnapdRestart"]
 
 ORACLE_TEXT = {
     "A_E03a": "outcome of FinishTaskWithRestart/TaskWaitForRestart, or the change reported Wait while a task could run",
@@ -198,7 +198,8 @@ def real_coverage(files):
            "calls_waitfor": 0, "calls_undo_direction": 0, "requests_system": 0, "requests_daemon": 0,
            "requests_at_call": 0, "requests_postponed": 0, "classic_announcements": 0, "reboots": 0,
            "snapd_restarts": 0, "did_not_happen_callbacks": 0, "startups_resolving": 0,
-           "startups_keeping_waiters": 0, "changes_reporting_wait": 0, "stuck": 0}
+           "startups_keeping_waiters": 0, "changes_reporting_wait": 0, "stuck": 0,
+           "known_c03_abort_panics": 0}
     distinct = set()
     samples = []
     for f in files:
@@ -234,6 +235,7 @@ def real_coverage(files):
                     cov["startups_keeping_waiters"] += 1
             cov["changes_reporting_wait"] += "Wait" in st["chgst"]
             cov["stuck"] += e["ev"] == "Stuck"
+            cov["known_c03_abort_panics"] += e["ev"] == "AbortPanic"
             prev = e
         if evs and len(samples) < 3:
             samples.append([brief(e) for e in case_events(evs, min(len(evs), 14))[:7]])
@@ -281,7 +283,13 @@ def run(ctx):
         "conformance": "precise (every real critical section is a RestartBoundary step to the logged state making "
                        "exactly the logged requests)" if not divergences else "diverged",
     }
-    return Result(level="model_checking", coverage=coverage, violations=violations,
+    notes = []
+    if rcov["known_c03_abort_panics"]:
+        notes.append("the known C03 finding 'Change.Abort panics: change unexpectedly became unready' was reproduced %d "
+                     "time(s) on forward DAGs (a task waiting through TaskWaitForRestart precedes a Done task); the "
+                     "specification predicts each of these panics; not an E03 violation" % rcov["known_c03_abort_panics"])
+        ctx.log(notes[-1])
+    return Result(level="model_checking", coverage=coverage, violations=violations, notes=notes,
                   assumptions=["task handlers are gated by the driver; they call FinishTaskWithRestart (Done from a do "
                                "handler, Undone from an undo handler) or TaskWaitForRestart at most once per invocation "
                                "and then return nil",
